@@ -359,6 +359,22 @@ def corruptions():
             ('corrupt_wg_id_sgpr', wrong_wgid_sgpr), ('overlapping_gpu_ranges', split_overlap)]
 
 
+def binding_selftest(ctx, trace, cases, corr, label):
+    """Binding self-test on a trace of the real code.  It needs a trace the specification accepts: if the real
+    code is broken on the self-test cases themselves, that is a finding (reported through judge), not a
+    vacuous specification, and the self-test is skipped."""
+    v = ctx.validate_trace(TSPEC['dirs'], TSPEC['module'], TSPEC['cfg'], trace, timeout=TSPEC['timeout'])
+    if not v['accepted']:
+        judge(ctx, trace, cases, label)
+        ctx.notes.append('binding self-test (%s) skipped: the real code\'s own trace was rejected' % label)
+        return []
+    before = ctx.cov.get('binding_selftest')
+    common.selftest_binding(ctx, TSPEC, trace, corr)
+    res = ctx.cov['binding_selftest']
+    ctx.cov['binding_selftest'] = before
+    return res
+
+
 def build_cases(ctx, thorough):
     rng = random.Random(ctx.seed)
     cases = []
@@ -460,15 +476,15 @@ def run(ctx, selftest=False):
         keep = {'e2e_drop_wavefront', 'e2e_wrong_wg_id_register', 'drop_work_group', 'flip_exec_mask_bit',
                 'announce_one_more', 'wrong_partial_size', 'corrupt_lane_id_register', 'overlapping_gpu_ranges'}
         corr = [x for x in corr if x[0] in keep]
-    t5, _ = run_cases(ctx, drv, [json.loads(json.dumps(ecases[1]))], 'selftest_e2e')
-    common.selftest_binding(ctx, TSPEC, t5, [x for x in corr if x[0].startswith('e2e_')])
-    res_e2e = ctx.cov['binding_selftest']
+    e2e_sel = [json.loads(json.dumps(ecases[1]))]
+    t5, _ = run_cases(ctx, drv, e2e_sel, 'selftest_e2e')
+    results = binding_selftest(ctx, t5, e2e_sel, [x for x in corr if x[0].startswith('e2e_')], 'selftest_e2e')
     sel = [c for c in cases if c['regs'] and c['mode'] == 'full'][:6] + [c for c in cases if c['cus'] and c['mode'] == 'full'][:4]
     sel = [json.loads(json.dumps(c)) for c in sel] + [mk((10, 5, 3), (4, 2, 2), cus=[2, 1, 1], regs=['emu', 'timing'], regwg=2,
                                                           flags=FLAGS_IDS | 4 | 2)]
     t3, _ = run_cases(ctx, drv, sel, 'selftest')
-    common.selftest_binding(ctx, TSPEC, t3, [x for x in corr if not x[0].startswith('e2e_')])
-    ctx.cov['binding_selftest'] = ctx.cov['binding_selftest'] + res_e2e
+    results += binding_selftest(ctx, t3, sel, [x for x in corr if not x[0].startswith('e2e_')], 'selftest')
+    ctx.cov['binding_selftest'] = results
     ctx.assumptions += [
         'hardware rule modelled as in both compute units: lane l of a wavefront holds flat id FirstWiFlatID+l, flattened '
         'with the full work-group size; V5 code objects read packed ids (x | y<<10 | z<<20) from v0',
